@@ -9,6 +9,10 @@ values, absent fields and duplicates, plus ID / IDREF attributes, x SEVERAL CONS
 ELEMENT (keyref on the key's own rows = parent-pointer tables, second unique / key on the item and on the ref rows,
 K on a proper prefix of the fields so that a node lacks a field of one constraint and has all fields of another)
 x DECLARATION ORDER on a scope element (shuffled: keyref before / after its key, unique + key + keyref mixes)
+x ID / IDREF / IDREFS AT EVERY DEPTH (attributes id / idr / idrs on the validation root itself, containers, rows,
+notes; element-position leaves eid / eref / erefs / eidx in containers and at the bottom of note chains; references
+up, down, sideways, to the root; duplicates across levels; XSD 1.1 shared id_list of an element and its ID-typed
+children; partial inputs: the validation root is an inner element, as a document or inside a bigger tree)
 x nested / sibling scope elements (`sub` also directly under the root: a closed scope's counter precedes an open
 one in context.identities) x the NAMESPACE DECLARATIONS IN SCOPE
 where a field value is read: xmlns declarations (prefix rebindings p/q/r -> urn:a/b/c, default namespace on
@@ -65,7 +69,9 @@ TRUSTED = ['selector / field XPath evaluation by elementpath is cross-checked by
            'the construction of the initial map are inputs of the model, not modelled (C17 covers the mapper)']
 ASSUMPTIONS = ['documents are valid apart from identity constraints (checked: any other error kind aborts the case as a '
                'generator fault)',
-               'at most one ID attribute per element, no list-valued fields, no xsi:type inside constraint scopes '
+               'at most one ID attribute per element; in XSD 1.1 documents an element of a COMPLEX type with xs:ID simple '
+               'content (eidx) occurs only as the validation root (inside a document the code binds its value to the element '
+               'itself, XSD 1.1 to its parent: not generated, not judged); no list-valued fields, no xsi:type inside constraint scopes '
                '(C10 covers the xsi:type widening)',
                'keyref tuples that match a key value present in more than one scope instance of the referenced key '
                '(XSD conflict rule) are not judged: the property text does not fix that case',
@@ -80,6 +86,7 @@ TNS = 'urn:t'                                   # target namespace of the `tns` 
 # a `namespaces` argument that the document's declarations must override (were it to win, p:x = r:x and p:x != q:x)
 NSARG = {'p': 'urn:b', 'q': 'urn:c', 'z': 'urn:b'}
 URIS = ['urn:a', 'urn:b', 'urn:c']
+ROOTREG = False         # the tree under check records an ID that is the CONTENT of the validation root (C08-F9 repaired)
 FSCOPE = False          # the tree under check resolves QName fields at the field node (C08-F8 repaired); see detect_mode
 
 # value pools: type -> list of (value key, lexical variants).  Equal value keys (within one primitive
@@ -326,15 +333,78 @@ def gen_doc(rng, fields: list[dict], recursive: bool, big: bool, tns: bool = Fal
         root['kids'] += [{'tag': 'sub', 'vals': [], 'kids': rows(0, 3), 'id': None, 'idref': None}
                          for _ in range(rng.choice([1, 1, 2]))]
     rng.shuffle(root['kids'])
-    # ID / IDREF attributes on rows
-    if rng.random() < 0.5:
-        ids = ['A', 'B', 'C']
-        for n in a_dos(root):
-            if n['tag'] == 'item' and rng.random() < 0.5:
-                n['id'] = rng.choice(ids)
-            if n['tag'] == 'ref' and rng.random() < 0.4:
-                n['idref'] = rng.choice(ids + ['Z'])
     return root
+
+
+def _leaf(tag: str, val: str, **kw) -> dict:
+    return dict({'tag': tag, 'vals': [], 'kids': [], 'id': None, 'idref': None, 'val': val}, **kw)
+
+
+def _note(kids: Optional[list] = None, **kw) -> dict:
+    return dict({'tag': 'note', 'vals': [], 'kids': kids or [], 'id': None, 'idref': None}, **kw)
+
+
+def scatter_ids(rng, case: dict) -> None:
+    """the dimension `ID / IDREF / IDREFS at every depth`: attributes id / idr / idrs on ANY element — the document
+    element itself, containers, rows, notes — and element-position leaves eid / eref / erefs (eidx: ID simple
+    content with IDREF attributes; XSD 1.0 documents only, see ASSUMPTIONS) in containers and at the bottom of note
+    chains; values from a small pool so that duplicates across levels and references up / down / sideways are
+    frequent; lexical variants with surrounding blanks"""
+    root = case['doc']
+    ids = ['A', 'B', 'C'] if rng.random() < 0.7 else ['A', 'B', 'C', 'D', 'E', 'F']
+    v11 = case['v'] == '1.1'
+
+    def idv():
+        v = rng.choice(ids)
+        return v if rng.random() < 0.85 else ' ' + v + ' '
+
+    def refv():
+        return rng.choice(ids + (['Z'] if rng.random() < 0.4 else []))
+
+    def refsv():
+        v = rng.choice([' ', ' ', '  ']).join(refv() for _ in range(rng.randint(1, 3)))
+        return v if rng.random() < 0.85 else ' ' + v + ' '
+
+    def leaf():
+        t = rng.choice(['eid', 'eid', 'eref', 'erefs'] + ([] if v11 else ['eidx']))
+        if t == 'eidx':
+            return _leaf(t, idv(), idref=refv() if rng.random() < 0.5 else None,
+                         idrefs=refsv() if rng.random() < 0.3 else None)
+        return _leaf(t, idv() if t == 'eid' else refv() if t == 'eref' else refsv())
+
+    p_id = rng.choice([0.15, 0.3, 0.5])
+    for n in a_dos(root):
+        if n['tag'] in LEAVES:
+            continue
+        top = n is root
+        if rng.random() < (0.6 if top else p_id):
+            n['id'] = idv()
+        if rng.random() < (0.35 if top else 0.2):
+            n['idref'] = refv()
+        if rng.random() < (0.25 if top else 0.1):
+            n['idrefs'] = refsv()
+    for n in a_dos(root):
+        if n['tag'] in ('root', 'sec', 'sub', 'note', 'pre') and rng.random() < 0.3:
+            n['kids'].insert(rng.randint(0, len(n['kids'])), leaf())
+        if n['tag'] in ('root', 'sec', 'sub') and rng.random() < 0.2:
+            # a chain of notes with a leaf at the bottom: the deepest nodes of the document
+            chain = _note([leaf()], **({'id': idv()} if rng.random() < 0.4 else {}))
+            for _ in range(rng.randint(0, 2)):
+                chain = _note([chain] + ([leaf()] if rng.random() < 0.3 else []))
+            n['kids'].insert(rng.randint(0, len(n['kids'])), chain)
+
+
+def cut_partial(rng, case: dict) -> None:
+    """partial input: the validation starts from an inner element (every container / row / note / leaf declaration
+    is global): the document of the case becomes one subtree of the generated one"""
+    sc = scopes_of(case)
+    cands = [n for n in a_dos(case['doc'])[1:]
+             if n['tag'] in ('sec', 'item', 'ref', 'note', 'eidx', 'eref') or (n['tag'] == 'sub' and case.get('rootsub'))]
+    if not cands:
+        return
+    n = rng.choice(cands)
+    n['ns'] = {p: u for p, u in sc[id(n)].items() if p != 't' and not (p == '' and case.get('etag') == 'default')}
+    case['doc'] = n
 
 
 def qual_xpath(xp: str, tns: bool) -> str:
@@ -368,8 +438,7 @@ def schema_text(case: dict) -> str:
                 kids.append(f'<xs:element name="{f["name"]}" type="{tyn}" minOccurs="0"/>')
             else:
                 attrs.append(f'<xs:attribute name="{f["name"]}" type="{tyn}"/>')
-        attrs.append('<xs:attribute name="id" type="xs:ID"/>' if tag == 'item'
-                     else '<xs:attribute name="idr" type="xs:IDREF"/>')
+        attrs.append(IDATTRS)
         return (f'<xs:element name="{tag}"><xs:complexType><xs:sequence>'
                 f'<xs:element ref="{pf}pre" minOccurs="0" maxOccurs="unbounded"/>{"".join(kids)}'
                 f'<xs:element ref="{pf}note" minOccurs="0" maxOccurs="unbounded"/></xs:sequence>'
@@ -387,6 +456,7 @@ def schema_text(case: dict) -> str:
         return ''.join(out)
 
     rootsub = bool(case.get('rootsub'))      # `sub` is a global element, also allowed directly under the root
+    leaves = ''.join(f'<xs:element ref="{pf}{x}"/>' for x in LEAVES)
 
     def container(tag, local=False):
         kids = ''.join(
@@ -394,17 +464,29 @@ def schema_text(case: dict) -> str:
             for k in STRUCT[tag] + (['sub'] if rootsub and tag == 'root' else [])
             if k != 'sec' or tag == 'root' or case['recursive'])
         return (f'<xs:element name="{tag}"><xs:complexType><xs:choice minOccurs="0" maxOccurs="unbounded">'
-                f'{kids}<xs:element ref="{pf}note"/></xs:choice></xs:complexType>{idc(tag)}</xs:element>')
+                f'{kids}<xs:element ref="{pf}note"/>{leaves}</xs:choice>{IDATTRS}</xs:complexType>{idc(tag)}</xs:element>')
 
     head = (f'<xs:schema xmlns:xs="{XS}" xmlns:t="{TNS}" targetNamespace="{TNS}" elementFormDefault="qualified">'
             if tns else f'<xs:schema xmlns:xs="{XS}">')
-    notes = (f'<xs:complexType name="noteT"><xs:sequence><xs:element ref="{pf}note" minOccurs="0" '
-             f'maxOccurs="unbounded"/></xs:sequence></xs:complexType>'
-             f'<xs:element name="note" type="{pf}noteT"/><xs:element name="pre" type="{pf}noteT"/>')
+    # ID / IDREF / IDREFS in element position: leaves allowed in every container and at any depth of the notes
+    notes = (f'<xs:complexType name="noteT"><xs:choice minOccurs="0" maxOccurs="unbounded"><xs:element ref="{pf}note"/>'
+             f'{leaves}</xs:choice>{IDATTRS}</xs:complexType>'
+             f'<xs:element name="note" type="{pf}noteT"/><xs:element name="pre" type="{pf}noteT"/>'
+             f'<xs:element name="eid" type="xs:ID"/><xs:element name="eref" type="xs:IDREF"/>'
+             f'<xs:element name="erefs" type="xs:IDREFS"/>'
+             f'<xs:element name="eidx"><xs:complexType><xs:simpleContent><xs:extension base="xs:ID">'
+             f'<xs:attribute name="idr" type="xs:IDREF"/><xs:attribute name="idrs" type="xs:IDREFS"/>'
+             f'</xs:extension></xs:simpleContent></xs:complexType></xs:element>')
     derived = ''.join(f'<xs:simpleType name="d_{ty}"><xs:restriction base="xs:{ty}"/></xs:simpleType>'
                       for ty in TYPES) if any(f.get('d') or f.get('rd') for f in fields) else ''
     return (head + container('root') + container('sec') + (container('sub') if rootsub else '')
             + row_decl('item') + row_decl('ref') + notes + derived + '</xs:schema>')
+
+
+# every element of the templates (root, containers, rows, notes) may carry one ID, one IDREF and one IDREFS attribute
+IDATTRS = ('<xs:attribute name="id" type="xs:ID"/><xs:attribute name="idr" type="xs:IDREF"/>'
+           '<xs:attribute name="idrs" type="xs:IDREFS"/>')
+LEAVES = ['eid', 'eref', 'erefs', 'eidx']       # element-position ID / IDREF / IDREFS (eidx: simple content + attributes)
 
 
 def root_decls(case: dict) -> dict:
@@ -441,14 +523,18 @@ def xml_text(case: dict) -> str:
                     out.append(f' {f["name"]}="{_esc(v[1])}"')
                 else:
                     inner.append(f'<{pf}{f["name"]}{decls(fns.get(f["name"]))}>{_esc(v[1])}</{pf}{f["name"]}>')
-            if n['id']:
-                out.append(f' id="{n["id"]}"')
-            if n['idref']:
-                out.append(f' idr="{n["idref"]}"')
             inner = [mk(k) for k in n['kids'] if k['tag'] == 'pre'] + inner + \
                     [mk(k) for k in n['kids'] if k['tag'] != 'pre']
         else:
             inner = [mk(k) for k in n['kids']]
+        if n.get('id') and n['tag'] not in LEAVES:
+            out.append(f' id="{n["id"]}"')
+        if n.get('idref') and n['tag'] not in ('eid', 'eref', 'erefs'):
+            out.append(f' idr="{n["idref"]}"')
+        if n.get('idrefs') and n['tag'] not in ('eid', 'eref', 'erefs'):
+            out.append(f' idrs="{n["idrefs"]}"')
+        if n['tag'] in LEAVES:
+            inner = [_esc(n.get('val') or '')]        # eid / eidx: the ID, eref: the IDREF, erefs: the IDREFS list
         return ''.join(out) + ('>' + ''.join(inner) + f'</{pf}{n["tag"]}>' if inner else '/>')
 
     return mk(case['doc'], True)
@@ -604,6 +690,21 @@ def oracle(case: dict) -> dict:
             n_ = parent.get(id(n_))
         return False
 
+    def depth(n_: dict) -> int:
+        d = 0
+        while parent.get(id(n_)) is not None:
+            n_, d = parent[id(n_)], d + 1
+        return d
+
+    def inside_node(anc: dict, n_: dict) -> bool:
+        """anc is a proper ancestor of n_"""
+        n_ = parent.get(id(n_))
+        while n_ is not None:
+            if n_ is anc:
+                return True
+            n_ = parent.get(id(n_))
+        return False
+
     first = {c['name']: min((order[id(x)] for x in nodes if x['tag'] == c['on']), default=None) for c in cons}
     by_id = {id(x): x for x in nodes}
     for nid, sel in picked.items():
@@ -642,13 +743,52 @@ def oracle(case: dict) -> dict:
             if c['kind'] == 'keyref' and any(d['name'] == c['refer'] for d in cs[:i]):
                 cover.add('order:keyref-declared-after-its-key-on-one-element')
     # ID / IDREF
-    ids = [n['id'] for n in nodes if n['id']]
-    refs = [n['idref'] for n in nodes if n['idref']]
-    if len(set(ids)) != len(ids):
-        clauses.add(('iddup',))
-    if any(r not in ids for r in refs):
-        clauses.add(('idref',))
-    if ids and refs:
+    # every ID occurrence binds its value to an element: an ID attribute to its owner; an element of type xs:ID to
+    # itself in XSD 1.0 and to its PARENT in XSD 1.1 (§3.17.5.2: the attributes and the ID-typed children of one
+    # element may repeat a value).  An ID value bound to two elements is a duplicate; every IDREF and every item of
+    # an IDREFS must be the value of some ID.  The document element is a node like any other.
+    v11 = case['v'] == '1.1'
+    binds: list = []
+    refs: list = []
+    for n in nodes:
+        if n.get('id') and n['tag'] not in LEAVES:
+            binds.append((n['id'].strip(), id(n)))
+            cover.add('id:ID-attribute@' + ('ROOT' if n is doc else 'leaf' if not n['kids'] else 'inner'))
+        if n['tag'] in ('eid', 'eidx'):
+            par = parent.get(id(n))
+            binds.append(((n.get('val') or '').strip(), id(par) if v11 and par is not None and n['tag'] == 'eid'
+                          else id(n)))
+            cover.add('id:ID-element-content@' + ('ROOT' if n is doc else 'depth>=3' if depth(n) >= 3 else 'inner'))
+        if n.get('idref') and n['tag'] not in ('eid', 'eref', 'erefs'):
+            refs.append((n['idref'].strip(), n))
+            cover.add('id:IDREF-attribute@' + ('ROOT' if n is doc else 'below'))
+        if n.get('idrefs') and n['tag'] not in ('eid', 'eref', 'erefs'):
+            refs.extend((t, n) for t in n['idrefs'].split())
+            cover.add('id:IDREFS-attribute@' + ('ROOT' if n is doc else 'below'))
+        if n['tag'] == 'eref':
+            refs.append(((n.get('val') or '').strip(), n))
+            cover.add('id:IDREF-element-content')
+        if n['tag'] == 'erefs':
+            refs.extend((t, n) for t in (n.get('val') or '').split())
+            cover.add('id:IDREFS-element-content')
+    first_b: dict = {}
+    for v, b in binds:
+        if first_b.setdefault(v, b) != b:
+            clauses.add(('iddup',))
+            cover.add('id:duplicate-across-%s' % ('levels' if depth(by_id.get(b, doc)) != depth(by_id.get(first_b[v], doc))
+                                                  else 'siblings'))
+    where = {v: by_id.get(b, doc) for v, b in reversed(binds)}
+    for r, n in refs:
+        if r not in first_b:
+            clauses.add(('idref',))
+        else:
+            t = where[r]
+            cover.add('id:reference-' + ('to-ROOT' if t is doc else 'up' if inside_node(t, n) else
+                                         'down' if inside_node(n, t) else 'sideways'))
+    if doc['tag'] != 'root':
+        cover.add('id:partial-input/validation-root=' + doc['tag'])
+    flags['rootid'] = (doc.get('val') or '').strip() if doc['tag'] in ('eid', 'eidx') else ''
+    if binds and refs:
         work += 1
     return {'clauses': clauses, 'flags': flags, 'work': work, 'cover': cover}
 
@@ -694,16 +834,20 @@ def run_impl(case: dict) -> dict:
     schema = get_schema(case)
     text = xml_text(case)
     src = case.get('src', 'etree')
+    # `wrap`: the validated Element is a child of a bigger tree (a sibling before it carries ID / IDREF attributes
+    # that are none of the validation's business): an Element passed directly, not a document
+    wrapped = '<wrapper><decoy id="A" idr="Z"/>' + text + '<decoy id="B"/></wrapper>' if case.get('wrap') else None
     if src == 'etree':
         # an ElementTree element has lost its xmlns declarations: the bindings are passed as an argument
         # (only generated when every declaration is on the document element)
         nsarg: Optional[dict] = root_decls(case)
-        resource = xmlschema.XMLResource(ET.fromstring(text))
+        resource = xmlschema.XMLResource(ET.fromstring(wrapped)[1] if wrapped else ET.fromstring(text))
     else:
         nsarg = dict(NSARG) if case.get('nsarg') else None
         if src == 'lxml':
             import lxml.etree
-            resource = xmlschema.XMLResource(lxml.etree.fromstring(text.encode('utf-8')))
+            resource = xmlschema.XMLResource(lxml.etree.fromstring(wrapped.encode('utf-8'))[1] if wrapped else
+                                             lxml.etree.fromstring(text.encode('utf-8')))
         else:
             resource = xmlschema.XMLResource(text)
     root = resource.root
@@ -768,27 +912,42 @@ def run_impl(case: dict) -> dict:
             t = getattr(t, 'base_type', None)
         return None
 
+    def id_kind(t) -> int:
+        """1 xs:ID, 2 xs:IDREF, 3 xs:IDREFS (the type or a restriction of it), else 0"""
+        for _ in range(8):
+            if t is None:
+                return 0
+            if (t.name or '') in ('{%s}ID' % XS, '{%s}IDREF' % XS, '{%s}IDREFS' % XS):
+                return {'ID': 1, 'IDREF': 2, 'IDREFS': 3}[t.name.split('}')[-1]]
+            t = getattr(t, 'base_type', None)
+        return 0
+
     def ser(e: ET.Element) -> dict:
         xe = decl_of.get(id(e))
         d = did(xe) if xe is not None else 10 ** 6
         attrs = []
         ety = None
+        ck = 0
         if xe is not None:
+            if xe.type.is_simple():
+                ck = id_kind(xe.type)
+            elif xe.type.has_simple_content():
+                ck = 4 if id_kind(xe.type.content) == 1 else 0      # (complex type: xs:ID simple content + attributes)
             decls_json.setdefault(d, [cid[id(c)] for c in xe.identities])
             if xe.type.is_simple():
                 ety = ty_tag(xe.type)
             for name, val in e.attrib.items():
                 xa = xe.type.attributes.get(name) if hasattr(xe.type, 'attributes') else None
-                tn = (xa.type.name or '').split('}')[-1] if xa is not None else ''
                 attrs.append([name, val, ty_tag(xa.type) if xa is not None else None,
-                              1 if tn == 'ID' else 2 if tn == 'IDREF' else 0])
-        return {'i': node_id[id(e)], 'd': d, 'n': e.tag, 'a': attrs, 't': ety, 'x': e.text or '',
+                              id_kind(xa.type) if xa is not None else 0])
+        return {'i': node_id[id(e)], 'd': d, 'n': e.tag, 'a': attrs, 't': ety, 'x': e.text or '', 'ck': ck,
                 'ns': [[p, u] for p, u in (resource.get_xmlns(e) or [])],      # declarations as the loader kept them
                 'k': [ser(k) for k in e]}
 
     doc_json = ser(root)
     req = {'schema': {'cons': cons_json, 'decls': [[d, cs] for d, cs in sorted(decls_json.items())],
-                      'ns': [[p, u] for p, u in sorted(ns0.items())], 'fscope': FSCOPE}, 'doc': doc_json}
+                      'ns': [[p, u] for p, u in sorted(ns0.items())], 'fscope': FSCOPE}, 'doc': doc_json,
+           'v11': case['v'] == '1.1', 'rootreg': ROOTREG}
     # ---- canonical errors
     names = {cid[id(c)]: lname(c.name) for c in idents}
 
@@ -880,7 +1039,7 @@ def lean_clauses(ans: dict, impl: dict) -> set:
             out.add(('notfound', names[cons[c]['refer']]))
         else:
             out.add((cl,))
-    for k, _ in ans['id']:
+    for k, _ in ans['ido']:         # the spec variant: every ID occurrence is recorded, the root's content too
         out.add((k,))
     return out
 
@@ -900,6 +1059,11 @@ def known_match(case: dict, detail: dict) -> Optional[str]:
     side = detail['side']
     if side == 'crash':
         return None                      # C08-F7 is fixed (b32146f): an escaping KeyError is a violation
+    if cl[0] == 'idref' and side == 'impl-only' and fl.get('rootid') and not ROOTREG and \
+            ['idref', fl['rootid'], 0, 0] in detail.get('impl_errors', []):
+        # the ID that is the content of the validation root itself is not recorded (level 0): a reference to it
+        # is reported as dangling.  No rule on a tree that records it (detect_mode).
+        return 'C08-F9'
     involved = set()
     if cl[0] == 'dup':
         involved = {cl[1]}
@@ -948,7 +1112,7 @@ def evaluate(ctx: Ctx, case: dict, reqs: Optional[list], pend: Optional[list], t
     for k in sorted({e[0] for e in impl['errors']}):
         ctx.count('err:' + k)
     for k in sorted(orc['cover']):
-        ctx.count(k if k.startswith(('overlap:', 'order:', 'falsy:')) else 'branch:' + k)
+        ctx.count(k if k.startswith(('overlap:', 'order:', 'falsy:', 'id:')) else 'branch:' + k)
     ctx.count('verdict:' + ('crash' if impl['crash'] else 'invalid' if impl['errors'] else 'valid'))
     for k in ns_stats(case):
         ctx.count(k)
@@ -985,7 +1149,8 @@ def judge(ctx: Ctx, case: dict, impl: dict, orc: dict, model_agrees: Optional[bo
     for c in case['cons']:
         if c['kind'] == 'keyref':
             keyrefs.setdefault(c['refer'], []).append(c['name'])
-    flj = {'nested': sorted(fl['nested']), 'spread': sorted(list(x) for x in fl['spread']),
+    flj = {'rootid': fl.get('rootid') or '',
+           'nested': sorted(fl['nested']), 'spread': sorted(list(x) for x in fl['spread']),
            'strq': sorted(fl['strq']), 'conflict': fl['conflict'], 'fieldns': sorted(fl['fieldns'])}
     if impl['crash']:
         d = {'clause': ('crash',), 'side': 'crash', 'flags': flj, 'model_agrees': model_agrees, 'keyrefs': keyrefs}
@@ -1207,6 +1372,12 @@ def random_case(rng, big: bool) -> dict:
         case['doc']['ns'] = dict(NSDECL, **{'': rng.choice(URIS)})
     if case['src'] != 'etree' and rng.random() < 0.25:
         case['nsarg'] = True
+    if rng.random() < 0.55:
+        scatter_ids(rng, case)
+        if rng.random() < 0.2:
+            cut_partial(rng, case)
+        if case['src'] in ('etree', 'lxml') and rng.random() < 0.2:
+            case['wrap'] = True
     if rng.random() < 0.2:
         case['decode'] = rng.choice(['default', 'jsonml', 'dataelement', 'badgerfish', 'unordered', 'parker', 'abdera',
                                      'columnar', 'gdata'])
@@ -1313,6 +1484,10 @@ WITNESSES = {
                    {'tag': 'item', 'vals': [[None, 'p:x']], 'kids': [], 'id': None, 'idref': None},
                    {'tag': 'item', 'vals': [[None, 'p:x']], 'kids': [], 'id': None, 'idref': None,
                     'fns': {'f1': {'p': 'urn:b'}}}]}},
+    # an ID that is the CONTENT of the element the validation starts from is not recorded (level 0)
+    'C08-F9': {'v': '1.0', 'recursive': False, 'src': 'text',
+               'fields': [{'name': 'f1', 'loc': 'attr', 'ty': 'string', 'rloc': 'attr', 'rty': 'string'}], 'cons': [],
+               'doc': {'tag': 'eidx', 'vals': [], 'kids': [], 'id': None, 'idref': 'a', 'val': 'a'}},
 }
 
 
@@ -1321,10 +1496,14 @@ def detect_mode() -> None:
     selects (C08-F8 repaired) or with the map of the selected node?  Decided by the F8 witness; the answer only
     selects which of the two proved variants of the model (`codeConv fscope`) the driver runs and whether the
     F8 match rule exists.  The property is judged against the same oracle either way."""
-    global FSCOPE
+    global FSCOPE, ROOTREG
     FSCOPE = False
     impl = run_impl(WITNESSES['C08-F8'])
     FSCOPE = not impl['crash'] and not impl['errors']
+    # likewise for C08-F9: is an ID that is the content of the validation root recorded?
+    ROOTREG = False
+    impl = run_impl(WITNESSES['C08-F9'])
+    ROOTREG = not impl['crash'] and not impl['errors']
 
 
 def _row(tag, *vals):
@@ -1566,6 +1745,83 @@ def falsy_cases(ctx: Ctx):
                                        'kids': [_row('item', *a), _row('item', *b), _row('item', *c)]}}
 
 
+def id_depth_cases(ctx: Ctx):
+    """exhaustive: WHERE ID / IDREF / IDREFS occurrences sit.  Skeleton top > sec > item, note > note (deepest);
+    two ID occurrences (equal or different values) and one reference, each at every position: attribute of the
+    validation root / sec / item / deepest note, eid leaf under the root / under sec / in the deepest note; the
+    reference as an idr or idrs attribute or an eref / erefs leaf at those places (references up, down, sideways,
+    to the root, dangling); both XSD versions; the validation root being the document element `root`, or `sec` /
+    `note` (partial input), plain or wrapped in a bigger tree; and the root being an eidx (ID content + IDREF
+    attributes)."""
+    F = [{'name': 'f1', 'loc': 'attr', 'ty': 'string', 'rloc': 'attr', 'rty': 'string'}]
+
+    def build(top: str):
+        item = {'tag': 'item', 'vals': [None], 'kids': [], 'id': None, 'idref': None}
+        deep = _note()
+        sec = {'tag': 'sec', 'vals': [], 'kids': [item, _note([deep])], 'id': None, 'idref': None}
+        if top == 'root':
+            t = {'tag': 'root', 'vals': [], 'kids': [sec], 'id': None, 'idref': None}
+        elif top == 'sec':
+            t = sec
+            sec['kids'] = [item, _note([_note([deep])])]
+        else:
+            t = _note([_note([item_free := _note()]), _note([deep])])
+            item, sec = item_free, t['kids'][0]
+        return t, {'top': t, 'sec': sec, 'item': item, 'deep': deep}
+
+    idpos = ['@top', '@sec', '@item', '@deep', 'eid/top', 'eid/sec', 'eid/deep']
+    refpos = ['@top', '@item', '@deep', 'idrs@top', 'idrs@sec', 'eref/top', 'eref/deep', 'erefs/sec']
+
+    def put_id(nodes, pos, v):
+        if pos[0] == '@':
+            if nodes[pos[1:]].get('id'):
+                return False
+            nodes[pos[1:]]['id'] = v
+        else:
+            nodes[pos[4:]]['kids'].append(_leaf('eid', v))
+        return True
+
+    def put_ref(nodes, pos, v):
+        if pos[0] == '@':
+            nodes[pos[1:]]['idref'] = v
+        elif pos.startswith('idrs@'):
+            nodes[pos[5:]]['idrefs'] = v + ' B'
+        elif pos.startswith('eref/'):
+            nodes[pos[5:]]['kids'].insert(0, _leaf('eref', v))
+        else:
+            nodes[pos[6:]]['kids'].append(_leaf('erefs', 'B  ' + v))
+        return True
+
+    n = 0
+    for top in ('root', 'sec', 'note'):
+        for ver in ('1.0', '1.1'):
+            for p1 in idpos:
+                for p2 in idpos:
+                    if idpos.index(p2) < idpos.index(p1) or (p1 == p2 and p1[0] == '@'):
+                        continue
+                    for v2 in ('A', 'B'):
+                        for pr in (refpos if top == 'root' or not ctx.quick() else refpos[::2]):
+                            for rv in ('A', 'B') if (top == 'root' and not ctx.quick()) else ('A',):
+                                t, nodes = build(top)
+                                if not (put_id(nodes, p1, 'A') and put_id(nodes, p2, v2)):
+                                    continue
+                                put_ref(nodes, pr, rv)
+                                n += 1
+                                yield {'v': ver, 'recursive': False, 'fields': F, 'cons': [], 'doc': t,
+                                       'src': ['text', 'etree', 'lxml'][n % 3],
+                                       **({'wrap': True} if n % 3 and n % 2 else {}),
+                                       **({'decode': ['default', 'jsonml', 'dataelement', 'parker'][n // 5 % 4]}
+                                          if n % 5 == 0 else {})}
+    # the validation root is itself an ID-typed element with IDREF / IDREFS attributes
+    for ver in ('1.0', '1.1'):
+        for val in ('a', ' a '):
+            for r in (None, 'a', 'b'):
+                for rs in (None, 'a', 'a b', 'a  a'):
+                    n += 1
+                    yield {'v': ver, 'recursive': False, 'fields': F, 'cons': [], 'src': ['text', 'etree', 'lxml'][n % 3],
+                           'doc': _leaf('eidx', val, idref=r, idrefs=rs)}
+
+
 def run(ctx: Ctx, driver_ok: bool) -> None:
     load_findings(ctx)
     detect_mode()
@@ -1600,7 +1856,9 @@ def run(ctx: Ctx, driver_ok: bool) -> None:
         go(case, 'exhaustive-overlap')
     for case in falsy_cases(ctx):
         go(case, 'exhaustive-falsy')
-    n = ctx.pick(4000, 30000)
+    for case in id_depth_cases(ctx):
+        go(case, 'exhaustive-id-depth')
+    n = ctx.pick(3000, 30000)
     for i in range(n):
         go(random_case(ctx.rng, big=(i % 5 == 4)), 'random')
         if ctx.time_left() < 120:
@@ -1621,7 +1879,10 @@ def run(ctx: Ctx, driver_ok: bool) -> None:
                                 'it refers to (and a further unique) x every declaration order x same / nested scope elements; '
                                 'every pair of rows of a two-field unique / key over {absent, two spellings of the falsy value '
                                 '(0, 0.0, empty string, false), a truthy value} per field for 5 type pairs x a reference row, '
-                                'and of a three-field one over {absent, 0, +00}.  '
+                                'and of a three-field one over {absent, 0, +00}; every placement of two ID occurrences and one '
+                                'IDREF / IDREFS occurrence over {attribute of the validation root / sec / item / deepest note, '
+                                'eid / eref / erefs leaf under the root / sec / deepest note} x XSD 1.0 / 1.1 x validation root = '
+                                'document element / inner element (plain, or inside a bigger tree) / ID-typed element.  '
                                 'random: %d seeded template x document cases') % (ctx.pick(3, 4), n)
 
 
